@@ -321,7 +321,48 @@ base = m1.second.Base()
 print(base.shared.upper, x.shared.battr, base.bmeth().shared, x.mother().shared, m1.val.shared.lower)
 print(M.mattr, m1.Mid.mattr, m1.Mid.mmeth, m1.second.Base.battr, M().mattr, x.mattr)
 '''
-MODS = {'m0': M0, 'm1': M1, 'm2': M2}
+PK_INIT = '''from .b import bval
+from . import b as bmod
+pkg_attr = bmod.bval
+'''
+PK_B = '''bval = 'text'
+
+
+def bfun():
+    return bval
+'''
+PK_A = '''from . import b
+from .b import *
+from .sub import c as cmod
+from .. import m2 as above
+res = b.bfun()
+print(bval.upper, res.lower, cmod.cval.real, above, cmod.up.lower)
+'''
+PK_SUB_C = '''from .. import b
+from ..b import bval as up
+from ... import m2 as toofar
+cval = 1
+print(b.bfun, up.upper, toofar, cval)
+'''
+# a top-level script: its relative imports start in a directory that is not a package and resolve to nothing,
+# whatever was normalised for the package modules before
+TOOL = '''from . import m2 as sibling
+from . import b as sib_b
+from .m2 import *
+from .b import bfun
+import pk.a
+print(sibling, sib_b.bval.upper, val, bfun, pk.a.res.upper, Base, pk.pkg_attr.lower)
+'''
+MODS = {'m0': M0, 'm1': M1, 'm2': M2, 'pk/__init__': PK_INIT, 'pk/b': PK_B, 'pk/a': PK_A, 'pk/sub/__init__': 'subattr = 1\n',
+        'pk/sub/c': PK_SUB_C, 'tool': TOOL}
+
+
+def write_mods(root):
+    for name, src in MODS.items():
+        fn = os.path.join(root, name + '.py')
+        os.makedirs(os.path.dirname(fn), exist_ok=True)
+        with open(fn, 'w') as f:
+            f.write(src)
 
 
 def history_positions():
@@ -335,6 +376,11 @@ def history_positions():
             elif isinstance(n, ast.Attribute):
                 pos.append((n.end_lineno, n.end_col_offset))
                 pos.append((n.end_lineno, n.end_col_offset - len(n.attr)))
+            elif isinstance(n, ast.alias) and getattr(n, 'end_col_offset', None) is not None:
+                pos.append((n.end_lineno, n.end_col_offset))            # end of the imported (or alias) name
+                pos.append((n.lineno, n.col_offset))                    # `from x import |`
+            elif isinstance(n, ast.ImportFrom):
+                pos.append((n.lineno, n.col_offset + len('from ') + n.level + len(n.module or '')))
         out[name] = sorted(set(pos))
     return out
 
@@ -378,9 +424,7 @@ def w_histories(job):
     sh = Shard()
     root = tempfile.mkdtemp(prefix='c04h_')
     try:
-        for name, src in MODS.items():
-            with open(os.path.join(root, name + '.py'), 'w') as f:
-                f.write(src)
+        write_mods(root)
         fresh_cache = {}
 
         def fresh(op):
@@ -404,8 +448,11 @@ def w_histories(job):
             sh.case(ops, len(ops) >= 3 and len(kinds) >= 2, {'history': [list(o) for o in ops[:6]], 'length': len(ops)})
             sh.count('histories')
             sh.count('history_requests', len(ops))
-        op = st.tuples(st.sampled_from(['lint', 'assist', 'location', 'location']), st.sampled_from(sorted(MODS)), st.integers(0, 200))
-        core.hyp_search(sh, prop, st.lists(op, min_size=2, max_size=10), seed, n, shrink=True, max_rounds=3)
+        # two history alphabets: the attribute/loop modules only (8 shards), and every module incl. the package and the
+        # top-level script with relative imports (4 shards)
+        mods = ['m0', 'm1', 'm2'] if idx % 3 != 2 else sorted(m for m in MODS if HPOS[m])
+        op = st.tuples(st.sampled_from(['lint', 'assist', 'location', 'location']), st.sampled_from(mods), st.integers(0, 200))
+        core.hyp_search(sh, prop, st.lists(op, min_size=2, max_size=14), seed, n, shrink=True, max_rounds=3)
     finally:
         shutil.rmtree(root, ignore_errors=True)
     return sh.result()
@@ -416,7 +463,7 @@ def run(run):
     run.pmap(w_programs, [(i, core.derive_seed(run.seed, 'c04p', i), n) for i in range(16)])
     files = corpus.sample(core.derive_seed(run.seed, 'c04f'), run.pick(24, 600), include_repo=True, max_bytes=run.pick(40000, 400000))
     run.pmap(w_files, [(sh_, core.derive_seed(run.seed, 'c04fs', i)) for i, sh_ in enumerate(corpus.shards(files, 16))])
-    run.pmap(w_histories, [(i, core.derive_seed(run.seed, 'c04h', i), run.pick(20, 400)) for i in range(8)])
+    run.pmap(w_histories, [(i, core.derive_seed(run.seed, 'c04h', i), run.pick(80, 600)) for i in range(12)])
 
 
 def replay(case):
@@ -432,9 +479,7 @@ def replay(case):
         root = tempfile.mkdtemp(prefix='c04h_')
         probs = []
         try:
-            for name, src in MODS.items():
-                with open(os.path.join(root, name + '.py'), 'w') as f:
-                    f.write(src)
+            write_mods(root)
             project = Project([root])
             for step, op in enumerate(case['ops']):
                 op = tuple(op)
